@@ -21,7 +21,8 @@ structure St where
   sess : Nat
   peer : Option PeerSt
   secure : Bool          -- connection switched to SecureConn (ecdhe): later sends are opaque
-  kept : List (Option Bytes) := []   -- ids of the earlier peers of this case that were handed over
+  parked : List (Nat × PeerSt × Bool) := []   -- the other sessions of this case (number, state, secure)
+  total : Nat := 0                              -- sessions created in this case
 
 def secretOf (n : Nat) : Bytes := 1 :: b2 n
 
@@ -55,6 +56,8 @@ def parseContent (sessSecret : Bytes) (s : String) : Option Bytes :=
       | [1, hi, lo] => some (4 :: b2 (hi.toNat * 256 + lo.toNat - 1))
       | _ => some [4])
   else if s = "o" then some [2]
+  else if s.startsWith "x" then          -- the secret of session index j of this case
+    ((s.drop 1).toNat?).bind (fun j => if j < 65535 then some (1 :: b2 (j + 1)) else none)
   else match s.toList with
     | 'm' :: r => (keyNum (String.ofList r)).map (fun j => 3 :: b2 j)
     | _ => none
@@ -145,7 +148,18 @@ def deliver (s : St) (m : Msg) : St × String :=
 
 def step (s : St) (toks : List String) : St × String :=
   match toks with
-  | ["reset"] => ({ sess := 0, peer := none, secure := false, kept := [] }, "ok")
+  | ["reset"] => ({ sess := 0, peer := none, secure := false, parked := [], total := 0 }, "ok")
+  | ["use", k] =>
+    match k.toNat? with
+    | some k =>
+      let parked := match s.peer with
+        | some p => s.parked ++ [(s.sess, p, s.secure)]
+        | none => s.parked
+      match parked.find? (fun e => e.1 == k + 1) with
+      | some (no, p, sec) =>
+        ({ s with sess := no, peer := some p, secure := sec, parked := parked.filter (fun e => e.1 != no) }, "ok")
+      | none => (s, "bad-op")
+    | none => (s, "bad-op")
   | ["idfill", a, n] =>
     -- n further distinct peer ids go through NewPeerIDFromPublicKey: identities are values,
     -- nothing a peer was given can change
@@ -153,10 +167,13 @@ def step (s : St) (toks : List String) : St × String :=
     | some a, some n => if a < 1000 ∨ a + n ≥ 65536 ∨ n > 1000 then (s, "bad-op") else (s, "ok")
     | _, _ => (s, "bad-op")
   | ["ids"] =>
-    let cur := match s.peer with
-      | some p => if p.handed ∧ ¬ p.closed then [p.id] else []
+    let curL := match s.peer with
+      | some p => [(s.sess, p, s.secure)]
       | none => []
-    let all := s.kept ++ cur
+    let every := s.parked ++ curL
+    -- in creation order
+    let ordered := (List.range (s.total + 1)).flatMap (fun n => every.filter (fun e => e.1 == n))
+    let all := (ordered.filter (fun e => e.2.1.handed ∧ ¬ e.2.1.closed)).map (fun e => e.2.1.id)
     (s, if all.isEmpty then "ids -" else "ids " ++ ",".intercalate (all.map idStr))
   | ["vs", pub, sig, ct] =>
     match parsePubTok pub, parseSigTok [9] sig, parseContent [9] ct with
@@ -170,10 +187,11 @@ def step (s : St) (toks : List String) : St × String :=
   | ["sess", inb] =>
     if inb = "1" ∨ inb = "0" then
       let r := onPeer (inb = "1")
-      let kept := match s.peer with
-        | some p => if p.handed ∧ ¬ p.closed then s.kept ++ [p.id] else s.kept
-        | none => s.kept
-      ({ sess := s.sess + 1, peer := some r.1, secure := false, kept := kept }, render r.2 r.2.length r.1)
+      let parked := match s.peer with
+        | some p => s.parked ++ [(s.sess, p, s.secure)]
+        | none => s.parked
+      ({ sess := s.total + 1, peer := some r.1, secure := false, parked := parked, total := s.total + 1 },
+        render r.2 r.2.length r.1)
     else (s, "bad-op")
   | ["secreq", suites, aeads, param] =>
     match natList suites, natList aeads with
